@@ -20,6 +20,16 @@ def run(ctx):
                       'scenario %s: %s; first unexplained event %s' % (r['scenario'], r['invariant'] or 'not a behaviour of ProxyServer.tla', r['event']), r)
     nshut = 0
     for sc in report:
+        if sc['family'] == 'twolisten':
+            # one Server, two listeners, an HTTP/1.1 exchange in flight at cancel: neither Serve call may return before it has drained
+            if sc.get('error'):
+                raise vf.Inconclusive('two-listeners scenario: %s' % sc['error'])
+            for which in sc.get('returned_before_drain_list') or []:
+                ctx.violation({'check': 'C17', 'kind': 'returned_before_drain', 'variant': 'two_listeners'},
+                              'scenario %s: Serve on %s returned while an HTTP/1.1 exchange was still in flight' % (sc['name'], which), sc)
+            if sc.get('not_returned_10s_after_drain'):
+                ctx.violation({'check': 'C17', 'kind': 'serve_did_not_return', 'variant': 'two_listeners'}, 'scenario %s: %s' % (sc['name'], sc['not_returned_10s_after_drain']), sc)
+            continue
         if sc['family'] != 'shutdown':
             if sc['family'] != 'panic' and sc.get('serve_err') not in (None, 'ErrServerClosed'):
                 ctx.violation({'check': 'C17', 'kind': 'serve_return_value'}, 'scenario %s: Serve returned %s' % (sc['name'], sc.get('serve_err')), sc)
@@ -50,7 +60,7 @@ def run(ctx):
         ctx.violation({'check': 'C17', 'kind': 'serve_did_not_return', 'variant': 'real_binary'}, 'real binary: after the last exchange ended the process did not end normally with "Server closed": %s' % ts, ts)
     cov = {'real_binary_two_signal_shutdown': {k: v for k, v in ts.items() if k != 'log_tail'}, 'traces_validated_against_impl': len(accepted), 'samples': [{'trace_prefix': lc.sample_trace(lines)}],
            'shutdown_states_constructed': nshut,
-           'active_exchange_scenario': [{k: s.get(k) for k in ('name', 'slow_exchange', 'late_during_drain', 'returned_before_drain')} for s in report if s.get('variant') == 'active'],
+           'two_listeners_scenario': [{k: s.get(k) for k in ('name', 'slow_exchange', 'returned_before_drain_list')} for s in report if s.get('variant') == 'two_listeners'], 'active_exchange_scenario': [{k: s.get(k) for k in ('name', 'slow_exchange', 'late_during_drain', 'returned_before_drain')} for s in report if s.get('variant') == 'active'],
            'latencies_s': {s['name']: (s.get('latency') or {}).get('serve_return_s') for s in report if s['family'] == 'shutdown'},
            'rule': 'one scenario per constructed state at cancel; plus every other scenario ends with a cancellation whose return value is checked'}
     return ctx.finish(cov, assumptions=['latency class "prompt" = 2 s (measured: < 10 ms)', 'variant active: one HTTP/1.1 exchange held open across cancel by a gated backend; late h2 / http/1.1 / no-ALPN clients during the drain'])
